@@ -10,6 +10,7 @@ import (
 	"strings"
 
 	"github.com/hashicorp/hcl-lang/lang"
+	"github.com/hashicorp/hcl-lang/reference"
 	"github.com/hashicorp/hcl/v2"
 	"github.com/hashicorp/hcl/v2/hclsyntax"
 )
@@ -105,7 +106,7 @@ func diagsStructured(ds hcl.Diagnostics) S {
 }
 
 func runC18(run *Run, replay string) {
-	run.Res.Rule = "cleanly parsed generated configurations (generic schemas and the Terraform-like language with resolving references, two files); every insertion point before a top-level item and after the last one x inserted text (1-3 lines: blank, '#', '//' and multi-byte comments); targets/origins are re-collected; every public query is run on the original and - at the correspondingly moved cursor - on the translated file and the results are compared after shifting the original's positions; distinct non-trivial = distinct (file text, insertion point, inserted text, query, offset) with a non-empty result"
+	run.Res.Rule = "cleanly parsed generated configurations (generic schemas and the Terraform-like language with resolving references, two files) and typing states of them (the first characters of a new top-level name on a line of its own: at the start of the file, between items, at the end); every insertion point before a top-level item and after the last one x inserted text (1-3 lines: blank, '#', '//' and multi-byte comments); targets/origins are re-collected; every public query is run on the original and - at the correspondingly moved cursor - on the translated file and the results are compared after shifting the original's positions; distinct non-trivial = distinct (file text, insertion point, inserted text, query, offset) with a non-empty result"
 	bases, posN := 40, 14
 	if run.Thorough {
 		bases, posN = 400, 60
@@ -129,6 +130,48 @@ func runC18(run *Run, replay string) {
 		if _, d := hclsyntax.ParseConfig(sc.Src, sc.File, hcl.InitialPos); d.HasErrors() || !strings.HasSuffix(string(sc.Src), "\n") {
 			continue
 		}
+		var typedAt []int
+		if bi%3 == 1 {
+			// a typing state: the beginning of a new top-level name on a line of its own - at the very
+			// start of the file, between two items or at the end (the rest of the file parses cleanly)
+			body0 := sc.Main.Ctx.Files[sc.File].Body.(*hclsyntax.Body)
+			var names []string
+			for n := range sc.Main.Schema.Blocks {
+				names = append(names, n)
+			}
+			for n := range sc.Main.Schema.Attributes {
+				names = append(names, n)
+			}
+			sort.Strings(names)
+			names = append(names, "zz", "res", "va")
+			name := pick(r, names)
+			if len(name) > 3 {
+				name = name[:1+r.Intn(3)]
+			}
+			cuts := []int{0, len(sc.Src)}
+			for _, b := range body0.Blocks {
+				cuts = append(cuts, b.Range().Start.Byte)
+			}
+			cut := cuts[r.Intn(len(cuts))]
+			if cut == 0 || sc.Src[cut-1] == '\n' {
+				nsrc0 := string(sc.Src[:cut]) + name + "\n" + string(sc.Src[cut:])
+				files := map[string]string{}
+				for n, b := range sc.Main.Src {
+					files[n] = string(b)
+				}
+				files[sc.File] = nsrc0
+				w0 := newWorld()
+				pd0 := w0.AddPath(sc.Main.Path.Path, sc.Main.Schema, files, sc.Main.Ctx.Functions)
+				if pd0.Ctx.Files[sc.File] != nil {
+					if _, ok := pd0.Ctx.Files[sc.File].Body.(*hclsyntax.Body); ok {
+						sc = &Scenario{W: w0, Main: pd0, File: sc.File, Src: []byte(nsrc0), Kind: sc.Kind + "-typing"}
+						for k := 0; k <= len(name); k++ {
+							typedAt = append(typedAt, cut+k)
+						}
+					}
+				}
+			}
+		}
 		body := sc.Main.Ctx.Files[sc.File].Body.(*hclsyntax.Body)
 		var points []int
 		for _, a := range body.Attributes {
@@ -143,7 +186,12 @@ func runC18(run *Run, replay string) {
 			points = points[:3]
 		}
 		sc.W.Collect()
-		offs := cursorOffsets(r, sc.Src, false, posN)
+		offs := append(cursorOffsets(r, sc.Src, false, posN), typedAt...)
+		if len(typedAt) > 0 {
+			// also insert right before the line being typed
+			points = append([]int{typedAt[0]}, points...)
+			run.Count("typing_states")
+		}
 		tbl := lcTable(sc.Src)
 		for _, at := range points {
 			ins := pick(r, inserts)
@@ -180,7 +228,14 @@ func runC18(run *Run, replay string) {
 					run.Distinct(fmt.Sprintf("%s|%d|%q|%s|%d", sc.Src, at, ins, q1.Name, off))
 				}
 				if want != got {
-					run.Violate(Violation{Key: "C18/result-changed/" + strings.SplitN(q1.Name, "(", 2)[0], Rule: "inserting blank or comment lines changes nothing except that positions at or after the insertion point move",
+					key := "C18/result-changed/" + strings.SplitN(q1.Name, "(", 2)[0]
+					if q1.Pos != nil && q2.Pos != nil && crossFileSelfAt(sc.Main, sc.File, *q1.Pos) != crossFileSelfAt(s2.Main, s2.File, *q2.Pos) {
+						// Target.Address(ctx, pos) decides between "self" and the absolute address by the byte range the
+						// declaration is addressable from, without looking at the file: a declaration of ANOTHER file
+						// whose byte range happens to contain the cursor is labelled self.*
+						key += "/self-address-chosen-by-byte-range-of-another-file"
+					}
+					run.Violate(Violation{Key: key, Rule: "inserting blank or comment lines changes nothing except that positions at or after the insertion point move",
 						Func: q1.Name, Detail: firstDiff(want, got), Replay: locWith(loc, q1)})
 				}
 			}
@@ -215,4 +270,22 @@ func runC18(run *Run, replay string) {
 			run.Sample(map[string]interface{}{"src": string(sc.Src), "insertion_points": points})
 		}
 	}
+}
+
+// crossFileSelfAt: is there a declaration of another file, addressable as self.*, whose
+// addressable-from byte range contains the position?
+func crossFileSelfAt(pd *PathData, file string, pos hcl.Pos) bool {
+	found := false
+	var walk func(ts reference.Targets)
+	walk = func(ts reference.Targets) {
+		for _, t := range ts {
+			if len(t.LocalAddr) > 0 && t.LocalAddr[0].String() == "self" && t.TargetableFromRangePtr != nil &&
+				t.TargetableFromRangePtr.Filename != file && t.TargetableFromRangePtr.ContainsPos(pos) {
+				found = true
+			}
+			walk(t.NestedTargets)
+		}
+	}
+	walk(pd.Ctx.ReferenceTargets)
+	return found
 }
